@@ -176,7 +176,9 @@ func sanitizeExternalIPs(ips []string) ([]string, error) {
 		sanitized = append(sanitized, trimmed)
 	}
 
-	if len(sanitized) == 0 {
+	// An empty External list is a documented rule (replace: drop the matched candidate, append:
+	// keep it unchanged); a list that only holds blank entries is a mistake.
+	if len(sanitized) == 0 && len(ips) > 0 {
 		return nil, ErrInvalidNAT1To1IPMapping
 	}
 
